@@ -416,6 +416,7 @@ inductive Err where
   | noSep       -- text "missing field separator :"
   | utf8        -- text "contains invalid UTF-8"
   | delegated   -- model artefact: well-known type / Any
+  | panic       -- the Go code would panic here ("invalid scalar kind", "invalid kind for map key"): proved unreachable
   deriving DecidableEq, Repr
 
 structure DOpts where
@@ -506,7 +507,7 @@ def dScalar (C : JCodec) (D : DOpts) (fx : FieldX) (v : JV) : Except Err (Option
      | .num l => intVal .enum (C.numInt l)
      | .null => if fx.nullEnum then .ok (some (.num 0)) else .error .value
      | _ => .error .value)
-  | .message | .group => .error .value
+  | .message | .group => .error .panic     -- `panic("unmarshalScalar: invalid scalar kind")`
 
 /-- protojson `unmarshalMapKey` -/
 def dKey (C : JCodec) (kf : FieldX) (name : Str) : Except Err Val :=
@@ -518,7 +519,7 @@ def dKey (C : JCodec) (kf : FieldX) (name : Str) : Except Err Val :=
     (match C.keyInt name with
      | some i => if inRange kf.f.kind i then .ok (.num (unsigned64 i)) else .error .value
      | none => .error .value)
-  | _ => .error .value
+  | _ => .error .panic                     -- `panic("invalid kind for map key")`
 
 def clearOneofFor (d : MsgD) (f : Field) (fs : Fields) : Fields :=
   match f.oneof with
@@ -557,6 +558,61 @@ def skipJMembers (limit : Int) (opn : Nat) : JMembers → Except Err Unit
     | .ok _ => skipJMembers limit opn tl
 end
 
+/-- `list.Append` of the decoded elements (`m.Mutable(fd).List()`) -/
+def storeList (m : Msg) (fx : FieldX) (r : Except Err Vals) : Except Err Msg :=
+  match r with
+  | .error e => .error e
+  | .ok vs => .ok (.mk (appendList m.fields fx.f.num vs) m.unknown)
+
+/-- the decoded map (`m.Mutable(fd).Map()` + `Set`s) -/
+def storeMap (m : Msg) (fx : FieldX) (r : Except Err Vals) : Except Err Msg :=
+  match r with
+  | .error e => .error e
+  | .ok vs => .ok (.mk (setMap m.fields fx.f.num vs) m.unknown)
+
+/-- `m.Set(fd, val)` of a freshly decoded submessage (replaces; clears the other oneof members) -/
+def storeMsg (d : MsgX) (m : Msg) (fx : FieldX) (r : Except Err Msg) : Except Err Msg :=
+  match r with
+  | .error e => .error e
+  | .ok sub => .ok (.mk ((clearOneofFor d.pb fx.f m.fields).set fx.f.num (.one (.msg sub))) m.unknown)
+
+/-- `if val.IsValid() { m.Set(fd, val) }` -/
+def storeScalar (d : MsgX) (m : Msg) (fx : FieldX) (r : Except Err (Option Val)) : Except Err Msg :=
+  match r with
+  | .error e => .error e
+  | .ok none => .ok m
+  | .ok (some x) => .ok (.mk (setSingular d.pb fx.f m.fields x) m.unknown)
+
+/-- what the field loop decides about one member *before* reading its value -/
+inductive Head where
+  | error (e : Err)
+  /-- nothing is stored: JSON null (the number is marked as seen), or a discarded unknown member -/
+  | skip (sn : Ints)
+  /-- the value is to be decoded for field `fx`; the updated `seenNums` / `seenOneofs` -/
+  | value (fx : FieldX) (sn so : Ints)
+
+/-- protojson `unmarshalMessage`, one iteration up to the value: name lookup, unknown members,
+duplicate check on `seenNums`, null, duplicate check on `seenOneofs` -/
+def dHead (D : DOpts) (X : SchemaX) (d : MsgX) (limit : Int) (key : Str) (v : JV) (sn so : Ints) : Head :=
+  match resolveJSON X d key with
+  | .badExt => .error .badExt
+  | .unknown =>
+    if D.discard then
+      match skipJ limit 0 v with
+      | .error e => .error e
+      | .ok _ => .skip sn
+    else .error .unknown
+  | .found fx =>
+    if sn.has fx.f.num then .error .dup else
+    if v.isNull && !fx.valueMsg && !fx.nullEnum then .skip (sn.set fx.f.num) else
+    match fx.f.card with
+    | .repeated => .value fx (sn.set fx.f.num) so
+    | .map => .value fx (sn.set fx.f.num) so
+    | _ =>
+      match fx.oneofIdx with
+      | some o => if so.has o then .error .dupOneof else .value fx (sn.set fx.f.num) (so.set o)
+      | none => .value fx (sn.set fx.f.num) so
+
 mutual
 /-- protojson `unmarshalMessage`; `limit` is `d.opts.RecursionLimit` on entry (before `--`) -/
 def dMsg (C : JCodec) (D : DOpts) (X : SchemaX) (mi : Nat) (limit : Int) : JV → Except Err Msg
@@ -573,46 +629,18 @@ def dMembers (C : JCodec) (D : DOpts) (X : SchemaX) (mi : Nat) (limit : Int) :
     JMembers → Ints → Ints → Msg → Except Err Msg
   | .nil, _, _, m => .ok m
   | .cons key v tl, sn, so, m =>
-    match resolveJSON X (X.msg mi) key with
-    | .badExt => .error .badExt
-    | .unknown =>
-      if D.discard then
-        match skipJ limit 0 v with
-        | .error e => .error e
-        | .ok _ => dMembers C D X mi limit tl sn so m
-      else .error .unknown
-    | .found fx =>
-      if sn.has fx.f.num then .error .dup else
-      if v.isNull && !fx.valueMsg && !fx.nullEnum then
-        dMembers C D X mi limit tl (sn.set fx.f.num) so m
-      else
-      match fx.f.card with
-      | .repeated =>
-        match dList C D X fx limit v with
-        | .error e => .error e
-        | .ok vs =>
-          dMembers C D X mi limit tl (sn.set fx.f.num) so (.mk (appendList m.fields fx.f.num vs) m.unknown)
-      | .map =>
-        match dMap C D X fx limit (curVals m.fields fx.f.num) v with
-        | .error e => .error e
-        | .ok vs =>
-          dMembers C D X mi limit tl (sn.set fx.f.num) so (.mk (setMap m.fields fx.f.num vs) m.unknown)
-      | _ =>
-        if (match fx.oneofIdx with | some o => so.has o | none => false) then .error .dupOneof else
-        let so' := match fx.oneofIdx with | some o => so.set o | none => so
-        if fx.f.kind.isMessage then
-          match dMsg C D X fx.f.sub limit v with
-          | .error e => .error e
-          | .ok sub =>
-            dMembers C D X mi limit tl (sn.set fx.f.num) so'
-              (.mk ((clearOneofFor (X.msg mi).pb fx.f m.fields).set fx.f.num (.one (.msg sub))) m.unknown)
-        else
-          match dScalar C D fx v with
-          | .error e => .error e
-          | .ok none => dMembers C D X mi limit tl (sn.set fx.f.num) so' m
-          | .ok (some x) =>
-            dMembers C D X mi limit tl (sn.set fx.f.num) so'
-              (.mk (setSingular (X.msg mi).pb fx.f m.fields x) m.unknown)
+    match dHead D X (X.msg mi) limit key v sn so with
+    | .error e => .error e
+    | .skip sn' => dMembers C D X mi limit tl sn' so m
+    | .value fx sn' so' =>
+      match (match fx.f.card with
+             | .repeated => storeList m fx (dList C D X fx limit v)
+             | .map => storeMap m fx (dMap C D X fx limit (curVals m.fields fx.f.num) v)
+             | _ =>
+               if fx.f.kind.isMessage then storeMsg (X.msg mi) m fx (dMsg C D X fx.f.sub limit v)
+               else storeScalar (X.msg mi) m fx (dScalar C D fx v)) with
+      | .error e => .error e
+      | .ok m' => dMembers C D X mi limit tl sn' so' m'
 /-- `unmarshalList`: the limit is *not* touched for lists -/
 def dList (C : JCodec) (D : DOpts) (X : SchemaX) (fx : FieldX) (limit : Int) : JV → Except Err Vals
   | .arr es => dElems C D X fx limit es
@@ -653,6 +681,16 @@ def dEntries (C : JCodec) (D : DOpts) (X : SchemaX) (fx : FieldX) (limit : Int) 
           | .ok (some x) => dEntries C D X fx limit tl (mapPut cur k (mkEntry k x))
     | _, _ => .error .delegated
 end
+
+/-- the value of a resolved, accepted member stored into `m`
+(`unmarshalList` / `unmarshalMap` / `unmarshalSingular`): what `dMembers` does with `.value` -/
+def dFieldVal (C : JCodec) (D : DOpts) (X : SchemaX) (mi : Nat) (fx : FieldX) (limit : Int) (m : Msg) (v : JV) : Except Err Msg :=
+  match fx.f.card with
+  | .repeated => storeList m fx (dList C D X fx limit v)
+  | .map => storeMap m fx (dMap C D X fx limit (curVals m.fields fx.f.num) v)
+  | _ =>
+    if fx.f.kind.isMessage then storeMsg (X.msg mi) m fx (dMsg C D X fx.f.sub limit v)
+    else storeScalar (X.msg mi) m fx (dScalar C D fx v)
 
 /-- `protojson.UnmarshalOptions{RecursionLimit: limit, DiscardUnknown: …}.Unmarshal` at tree level
 (`AllowPartial`; the trailing-EOF check is lexical) -/
@@ -983,7 +1021,7 @@ def tdTok (C : TCodec) (fx : FieldX) (t : TTok) : Except Err Val :=
                     | some i => if inRange .enum i then .ok (.num (unsigned64 i)) else .error .value
                     | none => .error .value)
      | .str _ => .error .value)
-  | .message | .group => .error .value
+  | .message | .group => .error .panic     -- `panic("invalid scalar kind")`
 
 /-- `unmarshalScalar` on a value: anything but a scalar token is "unexpected token" -/
 def tdScalar (C : TCodec) (fx : FieldX) : TV → Except Err Val
@@ -1039,6 +1077,37 @@ def skipTElemsFix (limit : Int) : TElems → Except Err Unit
     | _ => skipTElemsFix limit tl
 end
 
+/-- prototext `unmarshalMessage`, one iteration up to the value: name lookup, unknown / reserved names
+(the value is skipped), separator rule, `seenOneofs`, `seenNums` (singular fields only; the number is
+recorded after the value has been read, which is the same thing when an error aborts everything) -/
+def tdHead (D : DOpts) (X : SchemaX) (d : MsgX) (limit : Int) (name : TName) (sep : Bool) (v : TV) (sn so : Ints) : Head :=
+  match resolveText X d name with
+  | .badNum => .error .badNum
+  | .badExt => .error .badExt
+  | .byNumber => .error .byNumber
+  | .unknown s =>
+    if D.discard || d.reserved.contains s then
+      if D.skipLimited then
+        match skipTFix limit v with
+        | .error e => .error e
+        | .ok _ => .skip sn
+      else
+        -- `d.skipValue(); continue` — the result of skipValue is dropped
+        match skipT v with
+        | _ => .skip sn
+    else .error .unknown
+  | .found fx =>
+    match fx.f.card with
+    | .repeated => if !fx.f.kind.isMessage && !sep then .error .noSep else .value fx sn so
+    | .map => .value fx sn so
+    | _ =>
+      if !fx.f.kind.isMessage && !sep then .error .noSep else
+      match fx.oneofIdx with
+      | some o =>
+        if so.has o then .error .dupOneof
+        else if sn.has fx.f.num then .error .dup else .value fx (sn.set fx.f.num) (so.set o)
+      | none => if sn.has fx.f.num then .error .dup else .value fx (sn.set fx.f.num) so
+
 /-- state of `unmarshalMapEntry` -/
 structure EntrySt where
   key : Option Val := none
@@ -1061,49 +1130,18 @@ def tdFields (C : TCodec) (D : DOpts) (X : SchemaX) (mi : Nat) (limit : Int) :
     TFields → Ints → Ints → Msg → Except Err Msg
   | .nil, _, _, m => .ok m
   | .cons name sep v tl, sn, so, m =>
-    match resolveText X (X.msg mi) name with
-    | .badNum => .error .badNum
-    | .badExt => .error .badExt
-    | .byNumber => .error .byNumber
-    | .unknown s =>
-      if D.discard || (X.msg mi).reserved.contains s then
-        if D.skipLimited then
-          match skipTFix limit v with
-          | .error e => .error e
-          | .ok _ => tdFields C D X mi limit tl sn so m
-        else
-          -- `d.skipValue(); continue` — the result of skipValue is dropped
-          match skipT v with
-          | _ => tdFields C D X mi limit tl sn so m
-      else .error .unknown
-    | .found fx =>
-      match fx.f.card with
-      | .repeated =>
-        if !fx.f.kind.isMessage && !sep then .error .noSep else
-        match tdList C D X fx limit v with
-        | .error e => .error e
-        | .ok vs => tdFields C D X mi limit tl sn so (.mk (appendList m.fields fx.f.num vs) m.unknown)
-      | .map =>
-        match tdMap C D X fx limit (curVals m.fields fx.f.num) v with
-        | .error e => .error e
-        | .ok vs => tdFields C D X mi limit tl sn so (.mk (setMap m.fields fx.f.num vs) m.unknown)
-      | _ =>
-        if !fx.f.kind.isMessage && !sep then .error .noSep else
-        if (match fx.oneofIdx with | some o => so.has o | none => false) then .error .dupOneof else
-        let so' := match fx.oneofIdx with | some o => so.set o | none => so
-        if sn.has fx.f.num then .error .dup else
-        if fx.f.kind.isMessage then
-          match tdMsgV C D X fx.f.sub limit v with
-          | .error e => .error e
-          | .ok sub =>
-            tdFields C D X mi limit tl (sn.set fx.f.num) so'
-              (.mk ((clearOneofFor (X.msg mi).pb fx.f m.fields).set fx.f.num (.one (.msg sub))) m.unknown)
-        else
-          match tdScalar C fx v with
-          | .error e => .error e
-          | .ok x =>
-            tdFields C D X mi limit tl (sn.set fx.f.num) so'
-              (.mk (setSingular (X.msg mi).pb fx.f m.fields x) m.unknown)
+    match tdHead D X (X.msg mi) limit name sep v sn so with
+    | .error e => .error e
+    | .skip sn' => tdFields C D X mi limit tl sn' so m
+    | .value fx sn' so' =>
+      match (match fx.f.card with
+             | .repeated => storeList m fx (tdList C D X fx limit v)
+             | .map => storeMap m fx (tdMap C D X fx limit (curVals m.fields fx.f.num) v)
+             | _ =>
+               if fx.f.kind.isMessage then storeMsg (X.msg mi) m fx (tdMsgV C D X fx.f.sub limit v)
+               else storeScalar (X.msg mi) m fx ((tdScalar C fx v).map some)) with
+      | .error e => .error e
+      | .ok m' => tdFields C D X mi limit tl sn' so' m'
 /-- `unmarshalList`: `[a, b]` or a single value -/
 def tdList (C : TCodec) (D : DOpts) (X : SchemaX) (fx : FieldX) (limit : Int) : TV → Except Err Vals
   | .list es => tdElems C D X fx limit es
@@ -1200,6 +1238,15 @@ def tdEntry (C : TCodec) (D : DOpts) (X : SchemaX) (fx : FieldX) (limit : Int) :
          else tdEntry C D X fx limit tl st)
     | _, _ => .error .delegated
 end
+
+/-- the value of a resolved, accepted field stored into `m`: what `tdFields` does with `.value` -/
+def tdFieldVal (C : TCodec) (D : DOpts) (X : SchemaX) (mi : Nat) (fx : FieldX) (limit : Int) (m : Msg) (v : TV) : Except Err Msg :=
+  match fx.f.card with
+  | .repeated => storeList m fx (tdList C D X fx limit v)
+  | .map => storeMap m fx (tdMap C D X fx limit (curVals m.fields fx.f.num) v)
+  | _ =>
+    if fx.f.kind.isMessage then storeMsg (X.msg mi) m fx (tdMsgV C D X fx.f.sub limit v)
+    else storeScalar (X.msg mi) m fx ((tdScalar C fx v).map some)
 
 /-- `prototext.UnmarshalOptions{RecursionLimit: limit, DiscardUnknown: …}.Unmarshal` at tree level:
 the top-level message has no delimiters -/
